@@ -53,10 +53,15 @@ def wire(name):
 
 
 def mk_case(cid, role='server', kex=(), key=(), enc=(), mac=(), comp=('none',), hk=None, dh=None, sw=None, banner=None,
-            opts=()):
+            opts=(), enc_c2s=None, mac_c2s=None):
     """Names may be str or bytes (bytes = exact wire spelling)."""
     c = {'id': cid, 'role': role, 'kex': list(kex), 'key': list(key), 'enc': list(enc), 'mac': list(mac), 'comp': list(comp),
          'hk': dict(hk or {}), 'dh': dict(dh or {}), 'sw': sw, 'banner': banner, 'opts': list(opts)}
+    # a server's report is about what it sends to clients (server-to-client lists); the other direction may differ (RFC 4253 7.1)
+    if enc_c2s is not None:
+        c['enc_c2s'] = list(enc_c2s)
+    if mac_c2s is not None:
+        c['mac_c2s'] = list(mac_c2s)
     return c
 
 
@@ -179,6 +184,10 @@ def server_cfg(c):
                           kexinit={'kex': [wire(n) for n in c['kex']], 'key': [wire(n) for n in c['key']],
                                    'enc': [wire(n) for n in c['enc']], 'mac': [wire(n) for n in c['mac']],
                                    'comp': [wire(n) for n in c['comp']]})
+    if 'enc_c2s' in c:
+        cfg['kexinit']['enc_c2s'] = [wire(n) for n in c['enc_c2s']]
+    if 'mac_c2s' in c:
+        cfg['kexinit']['mac_c2s'] = [wire(n) for n in c['mac_c2s']]
     cfg['hostkeys'] = {k: hostkey_blob(k, v) for k, v in c['hk'].items()}
     # advertised probe-able types without a stated measurement get an unremarkable key (no size note is due for it)
     for n in c['key']:
